@@ -92,3 +92,39 @@ Definition run_glyphs (h n : Z) : list Z := [glyph_iters (Z.to_N h) (repeat 0%N 
 Definition run_raster (rest : list Z) : list Z := [raster_alloc rest].
 Definition run_macro (fuel : Z) (ms : list (Z * list Z)) (id : Z) : list Z :=
   match macro_chars (Z.to_nat fuel) ms id with Some n => [n] | None => [-2] end.
+
+(* ---- state comparison after short inputs (strengthening after the missed seeds, notes/C03.md) --------------------------------------------
+   run_state w h a b : the WHOLE input a ++ b is fed to a fresh w x h terminal through the clamped dispatcher of the cost model
+     (last_step: Cost.csi_final_c / csi_sp_c, every other character AnsiTok.ansi_step); a = state prefix + table entry, b = probe suffix.
+     -> 0  errors_after_a <snap after a>  errors_after_b <snap after b>  -7 k len_0 .. (first 512 rows)  -8 k tab_0 .. (first 512)      | -1 site | -2
+     snap = the observation vector of Run/RunC09.v (obs, without its class) followed by maxrow cells hash:
+       cx cy bw bh lw lh tw th nlines mt mb ml mr flags ntabs rowsum tabsum maxrow cells hash        (harness kind `c03st`). *)
+Definition wsum (f : Z -> Z) (l : list Z) : Z :=
+  snd (fold_left (fun '(i, acc) x => (i + 1, (acc + i * f x) mod 1000003)) l (1, 0)).
+Definition snap (t : term) : list Z :=
+  let '(mt_, mb_) := match mtb t with Some (a, b) => (a, b) | None => (-9, -9) end in
+  let '(ml_, mr_) := match mlr t with Some (a, b) => (a, b) | None => (-9, -9) end in
+  let flags := (if origin_m t then 1 else 0) + (if awrap t then 2 else 0) + (if ins t then 4 else 0) + (if declr t then 8 else 0) in
+  [cx t; cy t; bw t; bh t; lw t; lh t; tw t; th t; zlen (lines t); mt_; mb_; ml_; mr_; flags; zlen (tabs t);
+   wsum (fun x => x + 1) (map zlen (lines t)); wsum (fun x => x + 7) (tabs t); maxrow (lines t); cells (lines t); hash (lines t)].
+Fixpoint feed_st (m : amach) (cs : list Z) (nerr : Z) : (amach * Z) + list Z :=
+  match cs with
+  | [] => inl (m, nerr)
+  | c :: r => match fst (last_step m c) with
+              | OOk m1 => feed_st m1 r nerr
+              | OErr m1 => feed_st m1 r (nerr + 1)
+              | OPanic s => inr [-1; s]
+              | ODiverge => inr [-2]
+              end
+  end.
+Definition run_state (w h : Z) (a b : list Z) : list Z :=
+  match feed_st (ansi_init 0 false w h) a 0 with
+  | inl (m1, e1) =>
+    match feed_st m1 b e1 with
+    | inl (m2, e2) => 0 :: e1 :: snap (tm m1) ++ e2 :: snap (tm m2) ++
+                      (-7) :: Z.min 512 (zlen (lines (tm m2))) :: map zlen (firstn 512 (lines (tm m2))) ++
+                      (-8) :: Z.min 512 (zlen (tabs (tm m2))) :: firstn 512 (tabs (tm m2))
+    | inr l => l
+    end
+  | inr l => l
+  end.
